@@ -144,5 +144,27 @@ class Something(DBC):
         self.leaf = leaf
 
 
+@invariant(lambda self: 2 >= len(self.text), "Text has at most two characters")
+@invariant(lambda self: 1 <= len(self.text), "Text has at least one character")
+@invariant(lambda self: 2 >= len(self.words), "There are at most two words")
+@invariant(lambda self: 2 > len(self.tail), "There is at most one item in the tail")
+class Mirrored(DBC):
+    """Represent length constraints written with the constant on the left."""
+
+    text: str
+    """Text"""
+
+    words: List[str]
+    """Words"""
+
+    tail: List[str]
+    """Tail"""
+
+    def __init__(self, text: str, words: List[str], tail: List[str]) -> None:
+        self.text = text
+        self.words = words
+        self.tail = tail
+
+
 __version__ = "V0"
 __xml_namespace__ = "https://example.invalid/verif"
